@@ -4,9 +4,11 @@ RULE = ("(1) the bounded scope named by the property: histories tick^a . updateS
         "contract (count 10) - every (old count, new count, elapsed epochs, ring position) combination; exhaustive and sharded in the "
         "thorough tier, a seeded sample in quick; the candidate set walks a Gray code over 5 nodes so that every epoch publishes a "
         "different map in both representations; (2) seeded random longer histories (ticks, resizes from the boundary set derived from "
-        "the model's comparisons: 0, 1, id, id+1, old-1, old, old+1, 2*old, 254..257, candidate changes) with the signer sets "
-        "Alphabet / committee majority / one member / the node / nobody; (3) a malformed stream outside the quantifier (epoch jumps "
-        "over the 1-, 2-, 4-byte encoding boundaries, negative and huge arguments, counts >= 256) compared with the model only. "
+        "the model's comparisons: 0, 1, id, id+1, old-1, old, old+1, 2*old, 254..258, 300, 511, 65536, 2^63, candidate changes) with the "
+        "signer sets Alphabet / committee majority / one member / the node / nobody - every requested count is inside the monitored scope; "
+        "(3) big-count histories: the ring position is brought to old-1 (where a grow moves nothing), a count of 257/300/511/2^63 is requested, "
+        "then 262 ticks at count 256 wrap the largest legal ring; (4) a malformed stream outside the quantifier (epoch jumps over the 1-, 2-, "
+        "4-byte encoding boundaries and past 2^32, negative and huge arguments) compared with the model only. "
         "After every tick/resize: snapshot(d) for d = -1..min(N,13)+1 and N-1..N+1, snapshotByEpoch(e) and listNodes(e) over "
         "cur-min(N,13)-2..cur+2 and cur-N-1..cur-N+1, netmap(), epoch(), whether the next tick would HALT, and the decoded raw storage "
         "(count, current id, epoch, every snapshot_ slot, every p-list key, candidates). "
@@ -14,13 +16,15 @@ RULE = ("(1) the bounded scope named by the property: histories tick^a . updateS
 _base = dict(driver="drv_netmapring", harness="netmapring", shards=dict(quick=4, thorough=16), rule=RULE, facts=["consts"],
              assumptions=["no newEpoch subscriber is registered (cleanup calls nobody): subscribers are C06's subject",
                           "all candidates are Online with fixed node descriptions; a published map is identified by its node keys",
-                          "the theorems cover counts 1..256 and epochs below 2^32 (one-byte ring index, four-byte epoch key)"])
+                          "updateSnapshotCount is quantified over all integers (the method accepts exactly 1..256); the tick theorems assume "
+                          "consecutive epochs below 2^32 (four-byte epoch key)"])
 PROPS = {
     "C08": dict(_base, lean=["NeoFS.Props.C08"], monitors=["C08"]),
 }
 NOTE = ("Theorems are about NeoFS/Model/NetmapRing.lean, a branch-by-branch model of NewEpoch / UpdateSnapshotCount / moveSnapshot / "
         "dropNetmap / fourBytesBE / Snapshot / SnapshotByEpoch / ListNodesEpoch / Netmap of contracts/netmap/contract.go, and state that "
-        "the model refines the abstract history specification (hist, N, valid) for all counts 1..256, ring positions and epochs < 2^32. "
+        "the model refines the abstract history specification (hist, N, valid) for every accepted count (the method's guards admit exactly 1..256), "
+        "all ring positions and epochs < 2^32; counts above 256 are proved to be refused without effect. "
         "Trusted: Lean kernel; axioms propext/Classical.choice/Quot.sound only; the model-to-code tie is differential (bounded scope of the "
         "property exhaustively in the thorough tier + seeded histories + corpus on the contract compiled from the working tree, read API and "
         "decoded raw storage compared after every op); NeoVM runtime facts of DESIGN.md section 4 (transaction atomicity, Put(nil) FAULT, "
@@ -28,7 +32,8 @@ NOTE = ("Theorems are about NeoFS/Model/NetmapRing.lean, a branch-by-branch mode
 TECH = "Lean 4 refinement/invariant proof over a hand-written model + differential correspondence check against the compiled contract"
 CLAIMS = {
     "C08": dict(text="Unbounded proof: the invariant RingInv (contract state = abstract history specification) holds after deployment, is preserved by "
-                     "every HALTing tick of the next epoch and by every HALTing updateSnapshotCount(K), 1<=K<=256, for all old counts, ring positions "
+                     "every HALTing tick of the next epoch and by every HALTing updateSnapshotCount(K) for ANY integer K (accepted exactly for 1<=K<=256, "
+                     "changed, Alphabet-signed, no absent source slot; K>256 refused without effect), for all old counts, ring positions "
                      "and elapsed epochs; under it snapshot(d), snapshotByEpoch(e), listNodes(e), netmap() return exactly the map published d ticks "
                      "ago / at epoch e for the retained epochs and nothing otherwise; a count change keeps exactly the most recent min(retained,K) maps; "
                      "every accepted count can tick again; fourBytesBE is injective below 2^32 and the negative drop-loop iterations hit nothing stored. "
